@@ -89,7 +89,12 @@ fn main() {
                 let npar = tree.errors(&tokens).map(|e| e.errors.len()).unwrap_or(0);
                 if npar > 0 { return format!("lex_errors=0 parse_errors={} nodes={}", npar, tree.num_parse_nodes()); }
                 let hdr = tree.build_header();
-                format!("lex_errors=0 parse_errors=0 nodes={} header_nodes={} header_decls={}", tree.num_parse_nodes(), hdr.num_parse_nodes(), hdr.num_declarations())
+                // the XML dumps (C15 names them; C16/C17: no MALFORMED element for an accepted module or its header)
+                let (mal_tree, mal_hdr) = match std::str::from_utf8(&bytes) {
+                    Ok(src) => (tree.as_xml(&tokens, src).filter(|l| l.contains("MALFORMED")).count(), hdr.as_xml(&tokens, src).filter(|l| l.contains("MALFORMED")).count()),
+                    Err(_) => (0, 0),
+                };
+                format!("lex_errors=0 parse_errors=0 nodes={} header_nodes={} header_decls={} malformed={} header_malformed={}", tree.num_parse_nodes(), hdr.num_parse_nodes(), hdr.num_declarations(), mal_tree, mal_hdr)
             }
             _ => "unknown-mode".to_string(),
         }
